@@ -442,7 +442,10 @@ def rule_semi(m, modules):
     for mod in modules:
         fams = {}
         for rt in mod.routines:
-            key = (tuple(sorted((a.key() for a in rt.atoms))), tuple(sorted((c.rel, tuple(c.args)) for c in rt.concls)))
+            # a family is the set of sub-rules of one rule stage (`<rule>_<stage>_<k>`): two stages of a rule may be the same
+            # flat rule (a statement after a branch whose blocks have equal premises) and are enumerated independently
+            ms = re.match(r"^(.*_\d+)_\d+$", rt.rule_name or "")
+            key = (ms.group(1) if ms else None, tuple(sorted((a.key() for a in rt.atoms))), tuple(sorted((c.rel, tuple(c.args)) for c in rt.concls)))
             fams.setdefault(key, []).append(rt)
         for key, members in fams.items():
             where = "%s mod %s family of %s" % (m.path, mod.name, members[0].rule_name)
